@@ -50,6 +50,7 @@ func init() {
 			"firstdiff/prefix-pair", "firstdiff/end>=MaxInt/8", "strs/empty-list", "strs/append-to-element", "strs/batch>=4096", "strs/tostrs-partial-byte-element-not-last", "strs/tostrs-overlapping-views", "byte>=0x80", "len>=300", "tostr/long-result-retained"},
 		Families: func(c *mon.Config) []mon.Family {
 			return []mon.Family{
+				{Name: "cold-start", N: 1, Serial: true, Run: c08Cold},
 				{Name: "one-two-byte", N: 4 * 257, Run: c08Enum},
 				{Name: "random-strings", Env: 10, N: c.Pick(20000, 4000000), Run: c08Random},
 				{Name: "tostr-lengths", Env: 4, N: 4 * 18 * c.Pick(20, 5000), Run: c08ToStr},
@@ -123,6 +124,70 @@ func c08CheckStr(w *mon.W, n int, s string) bool {
 		return false
 	}
 	return true
+}
+
+// c08Cold: for every width another function makes the FIRST call on that width in this process (rotated by the
+// process variant): Get, FirstDiff, ToStr, ToStrs, FromStrs, FromStr. Each is compared with the bit model.
+func c08Cold(w *mon.W, _ int) {
+	rot := w.Cfg.ColdRotation()
+	s, t := "a\x5a\xff\x01z", "a\x5a\xfe\x01z"
+	for k, n := range c08Widths {
+		bw := bitword.BitWord[n]
+		nw := 8 * len(s) / n
+		words := make([]byte, nw)
+		firstDiff := nw
+		for i := nw - 1; i >= 0; i-- {
+			words[i] = c08Word(s, n, i)
+			if words[i] != c08Word(t, n, i) {
+				firstDiff = i
+			}
+		}
+		which := (k + rot) % 6
+		w.Op, w.A = "cold first call", int64(n)
+		d := func(call string, got, exp interface{}) mon.D {
+			return mon.D{"width": n, "first_call_on_this_width_in_the_process": call, "s": fmt.Sprintf("%q", s), "got": fmt.Sprint(got), "expected": fmt.Sprint(exp)}
+		}
+		switch which {
+		case 0:
+			for _, i := range []int{nw - 1, 0, 3 % nw} {
+				if g := bw.Get(s, i); g != words[i] {
+					w.Fail("cold/Get-before-any-other-call", d(fmt.Sprintf("Get(s,%d)", i), g, words[i]))
+					return
+				}
+			}
+		case 1:
+			if g := bw.FirstDiff(s, t, 0, -1); g != firstDiff {
+				w.Fail("cold/FirstDiff-before-any-other-call", d("FirstDiff(s,t,0,-1)", g, firstDiff))
+				return
+			}
+		case 2:
+			if g := bw.ToStr(words); g != s {
+				w.Fail("cold/ToStr-before-any-other-call", d("ToStr(words)", fmt.Sprintf("%q", g), fmt.Sprintf("%q", s)))
+				return
+			}
+		case 3:
+			if g := bw.ToStrs([][]byte{words, words[:nw/2]}); len(g) != 2 || g[0] != s || g[1] != c08Pack(words[:nw/2], n) {
+				w.Fail("cold/ToStrs-before-any-other-call", d("ToStrs", fmt.Sprintf("%q", g), ""))
+				return
+			}
+		case 4:
+			if g := bw.FromStrs([]string{s, ""}); len(g) != 2 || string(g[0]) != string(words) || len(g[1]) != 0 {
+				w.Fail("cold/FromStrs-before-any-other-call", d("FromStrs", g, words))
+				return
+			}
+		default:
+			if g := bw.FromStr(s); string(g) != string(words) {
+				w.Fail("cold/FromStr-before-any-other-call", d("FromStr", g, words))
+				return
+			}
+		}
+		w.Eval(1)
+		// and the usual complete check right after
+		if !c08CheckStr(w, n, s) {
+			return
+		}
+	}
+	w.Bucket("cold-start")
 }
 
 func c08Enum(w *mon.W, idx int) {
